@@ -108,17 +108,17 @@ Lemma d7_repaired :
             map fst l = [lit "a.txt"%string; lit "z.txt"%string].
 Proof. eexists. split; vm_compute; reflexivity. Qed.
 
-(* D26: a child the handler chain accepts but cannot read (HTML title of an unreadable file) *)
-Definition d26_world : world :=
+(* D27: a child the handler chain accepts but cannot read (HTML title of an unreadable file) *)
+Definition d27_world : world :=
   mkWorld (lit "/d"%string)
     (fun n => if str_eqb n (lit "locked.html"%string) then Some KUnreadable else Some KFile)
     (w_info d7_world) (fun _ => None) (fun _ => None).
-Definition d26_enum : list str := [lit "a.txt"%string; lit "locked.html"%string; lit "z.txt"%string].
-Definition head_before_d26 : fixes := mkFixes true true true true true true true false.
+Definition d27_enum : list str := [lit "a.txt"%string; lit "locked.html"%string; lit "z.txt"%string].
+Definition head_before_d27 : fixes := mkFixes true true true true true true true false.
 
 Lemma unreadable_refuted :
-  dir_listing head_before_d26 shipped_ignore d26_world d26_enum = Raise IOErr /\
-  umn_listing head_before_d26 shipped_ignore StripNone d26_world d26_enum = Raise IOErr /\
-  exists l, dir_listing repaired shipped_ignore d26_world d26_enum = Ok l /\
+  dir_listing head_before_d27 shipped_ignore d27_world d27_enum = Raise IOErr /\
+  umn_listing head_before_d27 shipped_ignore StripNone d27_world d27_enum = Raise IOErr /\
+  exists l, dir_listing repaired shipped_ignore d27_world d27_enum = Ok l /\
             map fst l = [lit "a.txt"%string; lit "z.txt"%string].
 Proof. split; [vm_compute; reflexivity|]. split; [vm_compute; reflexivity|]. eexists. split; vm_compute; reflexivity. Qed.
